@@ -157,6 +157,43 @@ func (ei *elemInvariant) sliceElemsNonEmpty1(s ssa.Value, f *ssa.Function, depth
 	switch v := s.(type) {
 	case *ssa.Const:
 		return v.Value == nil // nil slice
+	case *ssa.Parameter:
+		// a list parameter of an unexported helper: every call site passes such a list
+		g := v.Parent()
+		if g == nil || !smallHelper(g) || g.Parent() != nil {
+			return false
+		}
+		idx := -1
+		for i, q := range g.Params {
+			if q == v {
+				idx = i
+			}
+		}
+		nSites := 0
+		for _, caller := range ei.p.Funcs {
+			okAll := true
+			eachInstr(caller, func(ins ssa.Instruction) {
+				for _, op := range ins.Operands(nil) {
+					if *op == ssa.Value(g) {
+						if c, isCall := ins.(ssa.CallInstruction); !isCall || c.Common().Value != ssa.Value(g) {
+							okAll = false
+						}
+					}
+				}
+				c, ok := ins.(*ssa.Call)
+				if !ok || c.Common().StaticCallee() != g || idx < 0 {
+					return
+				}
+				nSites++
+				if !ei.sliceElemsNonEmpty(c.Common().Args[idx], caller, depth+1) {
+					okAll = false
+				}
+			})
+			if !okAll {
+				return false
+			}
+		}
+		return nSites > 0
 	case *ssa.MakeSlice:
 		if c, ok := constInt(v.Len); ok && c == 0 {
 			return true
